@@ -23,6 +23,7 @@ mod guard;
 mod io;
 mod keepalive;
 mod backpressure;
+mod churn;
 mod remotelinks;
 mod localproc;
 mod md5;
@@ -79,6 +80,7 @@ fn main() {
         "guard-run" => guard::run(rest),
         "keepalive-run" => keepalive::run(rest),
         "backpressure-run" => backpressure::run(rest),
+        "churn-run" => churn::run(rest),
         "remotelinks-run" => remotelinks::run(rest),
         "behaviours-run" => behaviours::run(rest),
         "nodeconn-run" => nodeconn::run(rest),
